@@ -149,11 +149,18 @@ def run_c05(tier, seed):
                 def body_a():
                     fo = io.BytesIO()
                     si = rng.choice([1, 30, 16000])
-                    writer(fo, raw, recs, codec=codec, sync_interval=si, sync_marker=SYNC)
+                    # user metadata: none, ordinary entries, or the metadata of another file handed on (it names that
+                    # file's codec and schema -- the codec ARGUMENT and the schema ARGUMENT are what the header must say)
+                    md = rng.choice([None, {"note": "x", "k": ""},
+                                     {"avro.codec": rng.choice([c for c in CODECS if c != codec]), "avro.schema": '"int"', "who": "me"}])
+                    writer(fo, raw, recs, codec=codec, sync_interval=si, sync_marker=SYNC, metadata=None if md is None else dict(md))
                     data = fo.getvalue()
                     got, f, c2, sch = D.file_records(data, SS.parse_top)
                     if not gen.same(got, want) or c2 != codec or f["sync"] != SYNC:
-                        res.fail("layout_of_written_file", f"independent parser got {short(got)} codec {c2}", case, "")
+                        res.fail("layout_of_written_file", f"independent parser got {short(got)} codec {c2} (metadata argument {md})", case, "")
+                    for k, v in (md or {}).items():
+                        if not k.startswith("avro.") and f["meta"].get(k) != v.encode():
+                            res.fail("layout_of_written_file", f"user metadata {k!r} lost or changed: {f['meta'].get(k)!r}", case, "")
                     if not is_avro(io.BytesIO(data)):
                         res.fail("is_avro", "is_avro false for a written file", case, "")
                     # blocks tile the file
